@@ -37,30 +37,36 @@ import (
 // One Core per case with the four listeners (plus a drawn subset of protocol servers, which adds their API
 // route groups), trusted proxy 127.0.0.1, a generated internal user table, two paths with a recorded
 // segment on disk. The route tables are read from the live gin engines (reflection on the unexported
-// httpServer field), so that a route added upstream is exercised without touching the harness.
+// field of type *httpp.Server), so that a route added upstream is exercised without touching the harness.
 // Every route gets at least one request; all requests the model refuses, and all admitted reads, run
 // concurrently (a refusal with credentials sleeps 0-4 s); the configuration and the recorded files are read
 // before and after; admitted mutating calls run afterwards.
 // ---------------------------------------------------------------------------------------------
 
-const c04AuthErrBody = `{"status":"error","error":"authentication error"}`
-
-// c04Engine digs the gin engine out of a component (field httpServer *httpp.Server, unexported).
+// c04Engine digs the gin engine out of a component: the (unexported) field of type *httpp.Server, found by its
+// TYPE - the name of the field is an internal detail (a tree that renames it must not disable the check).
+// nil if there is no such field (the caller then ends inconclusive).
 func c04Engine(component any) *gin.Engine {
 	v := reflect.ValueOf(component)
-	if v.Kind() != reflect.Pointer || v.IsNil() {
+	if v.Kind() != reflect.Pointer || v.IsNil() || v.Elem().Kind() != reflect.Struct {
 		return nil
 	}
-	f := v.Elem().FieldByName("httpServer")
-	if !f.IsValid() {
-		return nil
+	want := reflect.TypeOf((*httpp.Server)(nil))
+	st := v.Elem()
+	for i := 0; i < st.NumField(); i++ {
+		f := st.Field(i)
+		if f.Type() != want || !f.CanAddr() {
+			continue
+		}
+		hs := *(**httpp.Server)(unsafe.Pointer(f.UnsafeAddr()))
+		if hs == nil {
+			continue
+		}
+		if e, ok := hs.Handler.(*gin.Engine); ok && e != nil {
+			return e
+		}
 	}
-	hs := *(**httpp.Server)(unsafe.Pointer(f.UnsafeAddr()))
-	if hs == nil {
-		return nil
-	}
-	e, _ := hs.Handler.(*gin.Engine)
-	return e
+	return nil
 }
 
 type c04Route struct{ method, path string }
@@ -250,7 +256,8 @@ func (w *c04World) expect(r c04Req) string {
 
 // data markers that must never show up in a refusal
 var c04DataMarkers = []string{`"items"`, `"itemCount"`, `"logLevel"`, `"authInternalUsers"`, `"version"`, `"recordPath"`,
-	"paths{", "paths ", "goroutine ", "heap profile", "/debug/pprof/", `"start"`, `"duration"`, "ftyp", "moov"}
+	"paths{", "paths ", "goroutine ", "heap profile", "/debug/pprof/", `"start"`, `"duration"`, "ftyp", "moov",
+	`"confName"`, `"segments"`, `"bytesReceived"`, `"remoteAddr"`, `"pageCount"`}
 
 func c04Concrete(routePath string) string {
 	segs := strings.Split(routePath, "/")
@@ -502,9 +509,8 @@ func TestVerifC04Admin(t *testing.T) {
 					fail("%s: the user table does not admit this client for %q%s, but the answer is %d %.300q",
 						r, c04Action[r.listener], c04PathNote(r), o.status, o.body)
 				}
-				if r.method != http.MethodHead && string(o.body) != c04AuthErrBody {
-					fail("%s: the 401 body is not the fixed error object: %.300q", r, o.body)
-				}
+				// "carries no data" is decided by the data-marker scan below; the wording of the error object is not
+				// part of the statement and is not compared.
 			case "not401":
 				classes["admitted-"+r.listener] = true
 				if o.status == http.StatusUnauthorized {
